@@ -37,6 +37,7 @@ type Registration struct {
 }
 
 type Table struct {
+	MapField  int // -1: the variable is the map; otherwise the variable is a struct whose field MapField is the map
 	Global    *ssa.Global
 	Name      string // pkg.varname
 	Pkg       string
@@ -225,10 +226,19 @@ func (u *Universe) discoverTables() error {
 				continue
 			}
 			mt, ok := isFactoryMap(g.Type().(*types.Pointer).Elem(), u.BinaryCodecIface)
+			fieldIdx := -1
+			if !ok {
+				// a small record around the map (a factory type with Register/New methods): exactly one field, the map
+				if sv, isStruct := g.Type().(*types.Pointer).Elem().Underlying().(*types.Struct); isStruct && sv.NumFields() == 1 {
+					if m2, ok2 := isFactoryMap(sv.Field(0).Type(), u.BinaryCodecIface); ok2 {
+						mt, ok, fieldIdx = m2, true, 0
+					}
+				}
+			}
 			if !ok {
 				continue
 			}
-			t := &Table{Global: g, Pkg: shortPkg(pk.PkgPath), KeyType: mt.Key()}
+			t := &Table{Global: g, Pkg: shortPkg(pk.PkgPath), KeyType: mt.Key(), MapField: fieldIdx}
 			t.Name = t.Pkg + "." + g.Name()
 			u.Tables = append(u.Tables, t)
 			u.TableByVar[g] = t
@@ -382,6 +392,34 @@ func isInitFunc(fn *ssa.Function) bool {
 
 // classifyTableRef: an instruction that mentions the table's global.
 func (u *Universe) classifyTableRef(t *Table, fn *ssa.Function, in ssa.Instruction) {
+	if t.MapField >= 0 {
+		// the table is a record around the map: its address handed to a method (or helper) that reaches the map
+		// through that field, or the field taken here
+		switch x := in.(type) {
+		case *ssa.Call:
+			switch structMapUse(x, t.Global, t.MapField, 0) {
+			case "lookup":
+				addFn(&t.Lookups, fn)
+				return
+			case "update":
+				addFn(&t.Registrar, fn)
+				return
+			}
+		case *ssa.FieldAddr:
+			if x.Field == t.MapField {
+				switch fieldMapUse(x, 0) {
+				case "lookup":
+					addFn(&t.Lookups, fn)
+					return
+				case "update":
+					addFn(&t.Registrar, fn)
+					return
+				}
+			}
+		}
+		t.OtherRefs = append(t.OtherRefs, in)
+		return
+	}
 	// the usual shape: t0 = *global ; then Lookup / MapUpdate on t0
 	if ld, ok := in.(*ssa.UnOp); ok {
 		allOK := true
@@ -465,6 +503,113 @@ func paramMapUse(call *ssa.Call, v ssa.Value, depth int) string {
 				continue
 			}
 			sub := paramMapUse(r, p, depth+1)
+			if sub == "" {
+				return ""
+			}
+			if sub == "update" {
+				res = "update"
+			}
+		default:
+			return ""
+		}
+	}
+	return res
+}
+
+// fieldMapUse: fa is the address of the map field of a table record; what is done with the map? ("lookup", "update", "")
+func fieldMapUse(fa *ssa.FieldAddr, depth int) string {
+	res := "lookup"
+	for _, r := range *fa.Referrers() {
+		switch r := r.(type) {
+		case *ssa.DebugRef:
+		case *ssa.Store:
+			// (lazy) initialisation with a fresh map
+			if r.Addr != fa {
+				return ""
+			}
+			if _, isMake := r.Val.(*ssa.MakeMap); !isMake {
+				return ""
+			}
+			res = "update"
+		case *ssa.UnOp:
+			if r.Op != token.MUL {
+				return ""
+			}
+			for _, r2 := range *r.Referrers() {
+				switch u := r2.(type) {
+				case *ssa.DebugRef:
+				case *ssa.Lookup:
+					if u.X != r {
+						return ""
+					}
+				case *ssa.MapUpdate:
+					if u.Map != r {
+						return ""
+					}
+					res = "update"
+				case *ssa.BinOp: // m == nil
+					if u.Op != token.EQL && u.Op != token.NEQ {
+						return ""
+					}
+				case *ssa.Call:
+					if b, ok := u.Call.Value.(*ssa.Builtin); ok && b.Name() == "len" {
+						continue
+					}
+					sub := paramMapUse(u, r, depth+1)
+					if sub == "" {
+						return ""
+					}
+					if sub == "update" {
+						res = "update"
+					}
+				default:
+					return ""
+				}
+			}
+		default:
+			return ""
+		}
+	}
+	return res
+}
+
+// structMapUse: call passes the table record's address v to a static module callee; what does the callee do with the
+// map in field idx of that record (possibly through an instantiation wrapper or a further helper)?
+func structMapUse(call *ssa.Call, v ssa.Value, idx int, depth int) string {
+	callee := call.Call.StaticCallee()
+	if callee == nil || callee.Blocks == nil || depth > 4 {
+		return ""
+	}
+	ai := -1
+	for i, a := range call.Call.Args {
+		if a == v {
+			if ai >= 0 {
+				return ""
+			}
+			ai = i
+		}
+	}
+	if ai < 0 || ai >= len(callee.Params) {
+		return ""
+	}
+	p := callee.Params[ai]
+	res := "lookup"
+	for _, r := range *p.Referrers() {
+		switch r := r.(type) {
+		case *ssa.DebugRef:
+		case *ssa.FieldAddr:
+			if r.X != p || r.Field != idx {
+				return ""
+			}
+			sub := fieldMapUse(r, depth+1)
+			if sub == "" {
+				return ""
+			}
+			if sub == "update" {
+				res = "update"
+			}
+		case *ssa.Call:
+			sub := structMapUse(r, p, idx, depth+1)
 			if sub == "" {
 				return ""
 			}
